@@ -1,6 +1,7 @@
 (* Extract.v — extraction of the executable models to OCaml.
    Only ExtrOcamlBasic's directives are used (bool, option, unit, list, prod,
    sumbool, sumor -> OCaml natives).  Numbers and bytes stay inductive. *)
+(* deps: Base64Model.vo *)
 Require Extraction.
 Require Import ExtrOcamlBasic.
 From MV Require Import Bytes Base64Model.
